@@ -72,4 +72,15 @@ InvalidIsNone ==
             validsym == IF PlainFam(fam) THEN c <= MaxOf ELSE used
         IN  /\ (N > 0 /\ (a < 0 \/ a > N \/ ~validsym)) => TreeCl(fam, "rank", c, a).exp = {NONE}
             /\ (N > 0 /\ (a < 0 \/ a >= Count(S, c) \/ ~validsym)) => TreeCl(fam, "select", c, a).exp = {NONE}
-=============================================================================
+========================================================================
+\* limb arithmetic of the "big" bit-structure clauses: BigAdd agrees with integer addition
+\* wherever the values still fit TLC's integers (two limbs below the top bit), carries and
+\* borrows across the limb boundary included
+Val3(x) == x[2] * LIMB + x[3]
+BigAddBases == {<<0, 1, 0>>, <<0, 1, 5>>, <<0, 1, LIMB - 1>>, <<0, 63, LIMB - 3>>, <<0, 2, 0>>}
+BigAddDeltas == {-(LIMB + 5), -LIMB, -(LIMB - 1), -6, -5, -1, 0, 1, 2, 5, LIMB - 6, LIMB - 5, LIMB - 1, LIMB, LIMB + 1, 3 * LIMB + 7, 1073741823}
+ASSUME \A x \in BigAddBases, dd \in BigAddDeltas :
+          (Val3(x) + dd >= LIMB /\ Val3(x) + dd < 127 * LIMB) =>
+              LET r == BigAdd(x, dd) IN Len(r) = 3 /\ r[1] = 0 /\ r[3] \in 0..(LIMB - 1) /\ Val3(r) = Val3(x) + dd
+ASSUME SmallNum(0) = <<0>> /\ SmallNum(7) = <<0, 7>> /\ SmallNum(LIMB) = <<0, 1, 0>> /\ SmallNum(LIMB + 9) = <<0, 1, 9>>
+=====
